@@ -2,7 +2,11 @@
 (* Batch validation of put-level traces recorded from the real FlowDemux / FIBDemux / SimplePacketSwitch /  *)
 (* FairPacketSwitch / Hub / Splitter / NSplitter against Routing.tla.  Every logged event must be an         *)
 (* enabled step of the specification; logged header-field snapshots must equal the specification's heap.     *)
-(* Events (uniform records [e, oc, oi, obj, f, s, k, w, v, fl, x]):                                          *)
+(* Events (uniform records [e, oc, oi, obj, f, s, k, w, v, fl, x, tb]):                                      *)
+(*   C  the user changed the configuration through the public API: x = "set" (table[f] = oi on the table in *)
+(*      use), "del" (del table[f]), "table" (new table tb through the fib setter), "out" (outs.append),     *)
+(*      "end" / "unend" (ends[f] = device / del ends[f]), "dflt" (default_out = device if oi = 1 else None),*)
+(*      "join" (hub.add_endpoint, with a port device iff oi = 1)                                            *)
 (*   I  packet handed in (flow f, sender endpoint s, header fields fl)                                       *)
 (*   D  a recording device on output <<oc, oi>> received object obj whose header fields read fl              *)
 (*   M  the holder of object obj rewrote header field k (wrote w), the field then read v                     *)
@@ -38,9 +42,19 @@ ModifyEv == /\ More /\ Ev.e = "M"
 FinalEv == /\ More /\ Ev.e = "F"
            /\ phase # "busy" /\ Ev.obj \in 1..Len(heap) /\ heap[Ev.obj] = Ev.fl
            /\ UNCHANGED rvars /\ Consume
+ReconfEv == /\ More /\ Ev.e = "C"
+            /\ \/ Ev.x = "set" /\ SetEntry(Ev.f, Ev.oi)
+               \/ Ev.x = "del" /\ DelEntry(Ev.f)
+               \/ Ev.x = "table" /\ ReplaceTable(Ev.tb)
+               \/ Ev.x = "out" /\ AppendOut
+               \/ Ev.x = "end" /\ SetEnd(Ev.f)
+               \/ Ev.x = "unend" /\ DelEnd(Ev.f)
+               \/ Ev.x = "dflt" /\ SetDefault(Ev.oi)
+               \/ Ev.x = "join" /\ AddEndpoint(Ev.oi)
+            /\ Consume
 ReturnEv == /\ More /\ Ev.e = "R" /\ Return /\ Consume
 RaiseEv == /\ More /\ Ev.e = "X" /\ Raise /\ Consume
-Next == PutEv \/ DeliverEv \/ ForwardEv \/ ModifyEv \/ FinalEv \/ ReturnEv \/ RaiseEv
+Next == PutEv \/ DeliverEv \/ ForwardEv \/ ModifyEv \/ FinalEv \/ ReturnEv \/ RaiseEv \/ ReconfEv
 Spec == Init /\ [][Next]_vars
 
 Mark == TLCSet(tid, IF l > TLCGet(tid) THEN l ELSE TLCGet(tid))
